@@ -4,8 +4,8 @@ from fractions import Fraction
 from vcore import Case, Harness, sdk_sources, SDK_INCLUDES, REPO
 
 ID = 'C18'
-GEN = ['C18']
-LEAN_TARGETS = ['OtelVerif.Props.C18']
+GEN = ['C18', 'TabEnv']
+LEAN_TARGETS = ['OtelVerif.Props.C18', 'OtelVerif.Props.TabEnv']
 THEOREMS = ['Otel.C18.' + t for t in (
     # resources
     'merge_union_right_biased', 'merge_keys_union', 'merge_schema', 'merge_pure', 'merge_pure_history',
@@ -19,7 +19,8 @@ THEOREMS = ['Otel.C18.' + t for t in (
     'parseDuration_iff_documented', 'parseDuration_default_otherwise', 'parseDuration_never_ub',
     'parseDuration_aswas_witness_ub', 'parseDuration_aswas_witness_convert_ub',
     'parseFloat_accepts_decimal', 'parseFloat_rejects_on_range_error', 'parseFloat_errno_irrelevant',
-    'unit_table', 'bool_table', 'uint_bits')]
+    'unit_table', 'bool_table', 'uint_bits')] + ['Otel.Tab.' + t for t in (
+    'tab_envBool_head', 'tab_envDurUnit_head', 'tab_envDurByte_head', 'tab_envUintByte_head')]
 HARNESSES = [Harness('s_c18', ['harness/s_c18.cc'],
                      sdk_srcs=sdk_sources('common', 'resource', 'version') +
                      ['sdk/src/trace/provider.cc', 'sdk/src/metrics/provider.cc', 'sdk/src/logs/provider.cc'],
